@@ -21,6 +21,7 @@ import sys
 from concurrent.futures import ThreadPoolExecutor
 
 os.environ.setdefault("PYTHONHASHSEED", "0")
+sys.dont_write_bytecode = True  # nothing is written next to the sources in /repo
 VERIF = os.path.dirname(os.path.dirname(os.path.dirname(os.path.abspath(__file__))))
 COQ = os.path.join(VERIF, "coq")
 OUT = os.path.join(VERIF, "build", "urlcases")
